@@ -54,8 +54,6 @@ class CSSParser:
         if loglevel is not None:
             cssutils.log.setLevel(loglevel)
 
-        # remember global setting
-        self.__globalRaising = cssutils.log.raiseExceptions
         if raiseExceptions:
             self.__parseRaising = raiseExceptions
         else:
@@ -67,14 +65,17 @@ class CSSParser:
 
         self._validate = validate
 
-    def __parseSetting(self, parse):
+    def __parseSetting(self, parse, globalRaising=None):
         """during parse exceptions may be handled differently depending on
-        init parameter ``raiseExceptions``
+        init parameter ``raiseExceptions``, afterwards the setting found when
+        the parse call started (returned here) is restored
         """
         if parse:
+            globalRaising = cssutils.log.raiseExceptions
             cssutils.log.raiseExceptions = self.__parseRaising
+            return globalRaising
         else:
-            cssutils.log.raiseExceptions = self.__globalRaising
+            cssutils.log.raiseExceptions = globalRaising
 
     def parseStyle(self, cssText, encoding='utf-8', validate=None):
         """Parse given `cssText` which is assumed to be the content of
@@ -91,14 +92,16 @@ class CSSParser:
         :returns:
             :class:`~cssutils.css.CSSStyleDeclaration`
         """
-        self.__parseSetting(True)
-        if isinstance(cssText, bytes):
-            # TODO: use codecs.getdecoder('css') here?
-            cssText = cssText.decode(encoding)
-        if validate is None:
-            validate = self._validate
-        style = css.CSSStyleDeclaration(cssText, validating=validate)
-        self.__parseSetting(False)
+        globalRaising = self.__parseSetting(True)
+        try:
+            if isinstance(cssText, bytes):
+                # TODO: use codecs.getdecoder('css') here?
+                cssText = cssText.decode(encoding)
+            if validate is None:
+                validate = self._validate
+            style = css.CSSStyleDeclaration(cssText, validating=validate)
+        finally:
+            self.__parseSetting(False, globalRaising)
         return style
 
     def parseString(
@@ -130,27 +133,29 @@ class CSSParser:
         :returns:
             :class:`~cssutils.css.CSSStyleSheet`.
         """
-        self.__parseSetting(True)
-        # TODO: py3 needs bytes here!
-        if isinstance(cssText, bytes):
-            cssText = codecs.getdecoder('css')(cssText, encoding=encoding)[0]
+        globalRaising = self.__parseSetting(True)
+        try:
+            # TODO: py3 needs bytes here!
+            if isinstance(cssText, bytes):
+                cssText = codecs.getdecoder('css')(cssText, encoding=encoding)[0]
 
-        if validate is None:
-            validate = self._validate
+            if validate is None:
+                validate = self._validate
 
-        sheet = cssutils.css.CSSStyleSheet(
-            href=href,
-            media=cssutils.stylesheets.MediaList(media),
-            title=title,
-            validating=validate,
-        )
-        sheet._setFetcher(self.__fetcher)
-        # tokenizing this ways closes open constructs and adds EOF
-        sheet._setCssTextWithEncodingOverride(
-            self.__tokenizer.tokenize(cssText, fullsheet=True),
-            encodingOverride=encoding,
-        )
-        self.__parseSetting(False)
+            sheet = cssutils.css.CSSStyleSheet(
+                href=href,
+                media=cssutils.stylesheets.MediaList(media),
+                title=title,
+                validating=validate,
+            )
+            sheet._setFetcher(self.__fetcher)
+            # tokenizing this ways closes open constructs and adds EOF
+            sheet._setCssTextWithEncodingOverride(
+                self.__tokenizer.tokenize(cssText, fullsheet=True),
+                encodingOverride=encoding,
+            )
+        finally:
+            self.__parseSetting(False, globalRaising)
         return sheet
 
     def parseFile(
